@@ -4,6 +4,7 @@ import (
 	"bytes"
 	"context"
 	"math"
+	"sync"
 	"time"
 
 	"github.com/pkg/errors"
@@ -27,6 +28,8 @@ type TempPool struct {
 	cleanRemovedNewOperationsDeep     int
 	cleanRemovedProposalDeep          int
 	cleanRemovedBallotDeep            int
+	setProposalLock                   sync.Mutex
+	setBallotLock                     sync.Mutex
 }
 
 func NewTempPool(
@@ -171,6 +174,10 @@ func (db *TempPool) SetProposal(pr base.ProposalSignFact) (bool, error) {
 	}
 
 	key := leveldbProposalKey(pr.Fact().Hash())
+
+	// NOTE exists-then-put should be atomic; the first proposal of the fact wins
+	db.setProposalLock.Lock()
+	defer db.setProposalLock.Unlock()
 
 	switch found, err := pst.Exists(key); {
 	case err != nil:
@@ -785,6 +792,10 @@ func (db *TempPool) SetBallot(bl base.Ballot) (bool, error) {
 	key := leveldbBallotKey(bl.Point(), isaac.IsSuffrageConfirmBallotFact(bl.SignFact().Fact()))
 
 	var blb []byte
+
+	// NOTE exists-then-put should be atomic; the first ballot of the stage point wins
+	db.setBallotLock.Lock()
+	defer db.setBallotLock.Unlock()
 
 	switch found, err := pst.Exists(key); {
 	case err != nil:
